@@ -32,7 +32,7 @@ TypeString(ty) == CASE ty = "bool" -> "boolean" [] ty = "float" -> "double" [] t
                     [] ty = "str[]" -> "string[]" [] ty = "struct[]" -> "struct:Translation2d[]" [] ty = "empty_int[]" -> "int[]"
                     [] ty = "empty_str[]" -> "string[]"
                     \* a type hint wider than the default's own type decides (x: float = tunable(1), tunable[float](1), ...)
-                    [] ty \in {"hint_float", "hint_float_g", "hint_float_cv"} -> "double" [] ty = "hint_float[]" -> "double[]"
+                    [] ty \in {"hint_float", "hint_float_g", "hint_float_cv", "hint_float_inh"} -> "double" [] ty = "hint_float[]" -> "double[]"
                     [] OTHER -> ty      \* int, int[]
 \* bool has only two values
 Canon(ty, vi) == IF ty = "bool" /\ vi = 2 THEN 0 ELSE vi
